@@ -1204,12 +1204,14 @@ Section Converters.
   Qed.
 
   (* ----- imports ----- *)
-  Lemma costs_convert_import_items c nodes : kids_ok nodes -> costs (convert_import_items swidth cfg c nodes) (sumN W nodes).
+  Lemma costs_convert_import_items c nodes mr : kids_ok nodes -> costs (convert_import_items swidth cfg c nodes mr) (sumN W nodes).
   Proof.
     intros Hk. unfold convert_import_items.
-    pose proof (import_order_permutation cfg nodes) as Hp.
+    set (nodes' := import_items_final cfg mr nodes).
+    assert (Hp : Permutation nodes' nodes).
+    { unfold nodes', import_items_final. destruct mr; [apply import_order_permutation|apply Permutation_refl]. }
     rewrite <- (sumN_perm W _ _ Hp).
-    assert (Hk' : kids_ok (import_items_order cfg nodes)).
+    assert (Hk' : kids_ok nodes').
     { unfold kids_ok in *. rewrite Forall_forall in *. intros x Hx. apply Hk. eapply Permutation_in; eassumption. }
     apply costs_bind_r; [|intros; apply costs_ret_any].
     apply costs_lst_process. intros c' b Hin.
